@@ -506,11 +506,13 @@ class Function(object):
     def set_class_constraints(self):
         """
         This method is run by the :class:`PEP` just before solving the problem.
-        It reinitializes the list_of_class_constraints and list_of_class_psd attributes before filling them.
+        It reinitializes the list_of_class_constraints, list_of_class_psd and tables_of_constraints attributes
+        before filling them.
 
         """
         self.list_of_class_constraints = list()
         self.list_of_class_psd = list()
+        self.tables_of_constraints = dict()
         self.add_class_constraints()
 
     def add_class_constraints(self):
